@@ -2,9 +2,7 @@
    comparison with the model (Model/ArenaModel.v).  Verdicts:
      0 = implementation and model agree, the property holds on the implementation's output
      1 = they differ, the property still holds on the implementation's output
-     2 = the property fails on the implementation's output
-     4 = the property fails, and the failing operation lies in the domain of the known finding
-         (copy constructor / copy assignment from an arena with copy_reads_uninit = true, i.e. buffersPos_ < buffersSize_) *)
+     2 = the property fails on the implementation's output (a crash counts as a failure) *)
 From Coq Require Import ZArith List Bool.
 From DV Require Import Base.Corr Model.ArenaModel.
 Import ListNotations.
@@ -89,31 +87,18 @@ Definition prop_op (st : aslots) (o : op) (out : list Z) : bool * aslots :=
   | ODestroy s => (match out with [] => true | _ => false end, upd s None st)
   end.
 
-(* is operation [o] in state [w] inside the domain of the known finding? *)
-Definition in_finding_domain (w : world) (o : op) : bool :=
-  match o with
-  | OCopy _ s | OAssign _ s => match slot w s with Some a => copy_reads_uninit a | None => false end
-  | _ => false
-  end.
-
 (* walk the case.  [mw] = model world while model and implementation still agree; [k] = index of the operation.
-   Verdicts 2 and 4 carry the index of the failing operation: verdict + 10 * k *)
+   Verdict 2 carries the index of the failing operation: 2 + 10 * k *)
 Fixpoint walk (mw : option world) (st : aslots) (ops : list op) (outs : list (list Z)) (crashed : bool) (agree : bool) (k : Z) : Z :=
   match ops with
   | [] => if crashed then 2 + 10 * k else if agree && match outs with [] => true | _ => false end then 0 else 1
   | o :: ops' =>
       match outs with
       | [] =>     (* no (complete) output for this operation *)
-          if crashed then
-            match mw with
-            | Some w => if in_finding_domain w o && match exec_op w o with None => true | Some _ => false end then 4 + 10 * k else 2 + 10 * k
-            | None => 2 + 10 * k
-            end
-          else 2 + 10 * k
+          2 + 10 * k
       | out :: outs' =>
           let '(ok, st') := prop_op st o out in
-          if negb ok then
-            match mw with Some w => if in_finding_domain w o then 4 + 10 * k else 2 + 10 * k | None => 2 + 10 * k end
+          if negb ok then 2 + 10 * k
           else
             match mw with
             | Some w =>
